@@ -173,8 +173,8 @@ def multiline_string_interior(code: str) -> set[int] | None:
     docstring. Returns None when the source cannot be tokenized (or uses bare carriage returns,
     which the tokenizer counts as line ends and the line scan does not).
     """
-    if re.search(r"\r(?!\n)", code):
-        return None
+    if re.search(r"\r(?!\n)", code) or "\x00" in code:
+        return None  # (a NUL byte makes the tokenizer fail with SystemError)
     interior: set[int] = set()
     fstring_starts: list[int] = []
     try:
@@ -186,6 +186,6 @@ def multiline_string_interior(code: str) -> set[int] | None:
                 interior.update(range(fstring_starts.pop() + 1, tok.end[0] + 1))
             elif tok.type == tokenize.STRING and tok.end[0] > tok.start[0]:
                 interior.update(range(tok.start[0] + 1, tok.end[0] + 1))
-    except (tokenize.TokenError, SyntaxError, ValueError):
+    except (tokenize.TokenError, SyntaxError, ValueError, SystemError, RecursionError):
         return None
     return interior
